@@ -17,8 +17,8 @@ func TestMain(m *testing.M) { vstat.Main(m) }
 
 type genOpts struct {
 	clock       bool // advance / wait / park ops and expiries the clock will cross
-	pastExp     bool // records written already expired (in-memory only)
-	bornExpired bool // no clock ops, but some writes carry an expiry that is already in the past (in-memory only)
+	pastExp     bool // records written already expired (an hour ago, or the zero time)
+	bornExpired bool // no clock ops, but some writes carry an expiry that is already in the past
 	park        bool
 	maxLen      int
 	allKinds    []string
@@ -31,13 +31,16 @@ func genSeq(t *rapid.T, o genOpts) SCase {
 	elapsed := time.Duration(0)
 	var crossed []int
 	exps := []int{ExpNone, Exp1h, Exp100h, ExpNever}
+	if o.pastExp && !o.clock {
+		exps = append(exps, ExpPast, ExpZero)
+	}
 	if o.bornExpired {
-		exps = []int{ExpNone, Exp1h, ExpPast, ExpPast}
+		exps = []int{ExpNone, Exp1h, ExpPast, ExpPast, ExpZero}
 	}
 	if o.clock {
 		exps = []int{ExpNone, Exp1h, Exp1h, Exp3h, Exp3h, Exp100h, ExpNever}
 		if o.pastExp {
-			exps = append(exps, ExpPast)
+			exps = append(exps, ExpPast, ExpZero)
 		}
 	}
 	kinds := []string{"create", "create", "get", "getmany", "put", "put", "putmany", "putmany", "cas", "cas", "delete", "list"}
@@ -149,7 +152,7 @@ func recordC03(c SCase, info Info) {
 func TestC03Rapid(t *testing.T) {
 	st := vstat.For("C03")
 	rapid.Check(t, func(t *rapid.T) {
-		c := genSeq(t, genOpts{maxLen: vstat.Pick(40, 60)})
+		c := genSeq(t, genOpts{maxLen: vstat.Pick(40, 60), pastExp: true})
 		info, v := RunSeq(c, c03Drivers(t))
 		st.Report(t, "TestC03Rapid", c, v)
 		recordC03(c, info)
@@ -236,7 +239,7 @@ func TestC06InmemRapid(t *testing.T) {
 func TestC06RedisRapid(t *testing.T) {
 	st := vstat.For("C06")
 	rapid.Check(t, func(rt *rapid.T) {
-		c := genSeq(rt, genOpts{clock: true, maxLen: vstat.Pick(25, 40)})
+		c := genSeq(rt, genOpts{clock: true, pastExp: true, maxLen: vstat.Pick(25, 40)})
 		d, err := RedisDriver()
 		if err != nil {
 			t.Fatalf("INFRA: cannot start miniredis: %v", err)
@@ -303,6 +306,26 @@ func TestReplay(t *testing.T) {
 	env, err := vstat.LoadReplay(p, nil)
 	if err != nil {
 		t.Fatalf("cannot load %s: %v", p, err)
+	}
+	if env.Test == "TestC02Private" {
+		var c PrivateCase
+		if _, err := vstat.LoadReplay(p, &c); err != nil {
+			t.Fatalf("cannot decode %s: %v", p, err)
+		}
+		for i := 0; i < 10; i++ {
+			vstat.For("C02").Report(t, "TestReplay", c, runPrivate(c, storageFor(t, c.Backend)))
+		}
+		return
+	}
+	if env.Test == "TestC07Deadline" {
+		var c DeadlineCase
+		if _, err := vstat.LoadReplay(p, &c); err != nil {
+			t.Fatalf("cannot decode %s: %v", p, err)
+		}
+		for i := 0; i < 5; i++ {
+			vstat.For("C07").Report(t, "TestReplay", c, runDeadline(t, c))
+		}
+		return
 	}
 	if env.Test == "TestC02RedisWire" {
 		var c SchedCase
